@@ -21,7 +21,7 @@ RULE = (
 )
 TIERS = {"quick": {"shards": 8, "n": 900, "budget_s": 200}, "thorough": {"shards": 16, "n": 12000, "budget_s": 2700}}
 FLOOR = {"quick": 200, "thorough": 10000}
-REQUIRED_LABELS = {"quick": ["kwargs-param:not-last", "kind:literal", "kind:optint", "d:bool", "d:neg-int", "class-with-__call__", "__call__-executed"], "thorough": []}
+REQUIRED_LABELS = {"quick": ["kwargs-param:not-last", "kind:literal", "kind:optint", "d:bool", "d:neg-int", "class-with-__call__", "__call__-executed", "descr:long-token"], "thorough": []}
 ASSUMPTIONS = [
     "exec'ing emitted code is safe because the interface contains only literals and names of our own vocabulary",
     "pydantic's BaseModel is stubbed by `object` (pydantic itself is not a dependency of the repository)",
@@ -64,6 +64,7 @@ def _strategy():
     return st.one_of(
         gen_ir.interface("executable", min_params=1, max_params=6, returns=False),
         gen_ir.interface("executable", min_params=1, max_params=6, returns=False, doc=gen_ir.mixed_descr, name_strategy=gen_ir.rich_names),
+        gen_ir.interface("executable", min_params=1, max_params=3, returns=False, doc=st.one_of(gen_ir.descr, gen_ir.long_token_descr())),
     )
 
 
